@@ -38,7 +38,22 @@ func (v *Violation) String() string {
 
 type contextKey string
 
-const phaseContextKey contextKey = "_phase"
+const (
+	phaseContextKey    contextKey = "_phase"
+	teardownContextKey contextKey = "_teardown"
+)
+
+// NewContextForTeardown returns a context marking preflight checks as being run for the teardown of an object.
+// Checkers that only guard writing the desired state of an object (DryRun, NoOwnerReferences)
+// skip themselves during teardown.
+func NewContextForTeardown(ctx context.Context) context.Context {
+	return context.WithValue(ctx, teardownContextKey, true)
+}
+
+func isTeardownContext(ctx context.Context) bool {
+	teardown, ok := ctx.Value(teardownContextKey).(bool)
+	return ok && teardown
+}
 
 func NewContextWithPhase(ctx context.Context, phase corev1alpha1.ObjectSetTemplatePhase) context.Context {
 	return context.WithValue(ctx, phaseContextKey, phase)
